@@ -11,9 +11,10 @@ import Driver.Kinds.H265
 import Driver.Kinds.Vpx
 import Driver.Kinds.Av1
 import Driver.Kinds.Prov
+import Driver.Kinds.E2E
 namespace Rtp
 def allHandlers : List (String × Proto.Handler) :=
   Kinds.C16.handlers ++ Kinds.Audio.handlers ++ Kinds.CoreA.handlers ++ Kinds.CoreB.handlers ++ Kinds.CoreC.handlers ++ Kinds.Pktz.handlers ++ Kinds.Ext.handlers ++
   Kinds.Vla.handlers ++ Kinds.H264.handlers ++ Kinds.H265.handlers ++ Kinds.Vpx.handlers ++
-  Kinds.Av1.handlers ++ Kinds.Prov.handlers
+  Kinds.Av1.handlers ++ Kinds.Prov.handlers ++ Kinds.E2E.handlers
 end Rtp
